@@ -68,6 +68,16 @@ FrameSeriesTOpOK(fn, a, s, res) ==
   /\ \A i \in 1..Len(res.index), j \in 1..Len(res.columns) :
         res.cols[j][i] = OpVal(fn, Lookup2(a, res.index[i], res.columns[j]), Lookup1(s.index, s.vals, res.index[i]))
   /\ (a.index = s.index) => res.index = a.index
+(* matrix product (@): Series @ Frame pairs the Series' labels with the Frame's ROW labels, Frame @ Series the Frame's COLUMN labels with the   *)
+(* Series' labels - by label, whatever the order either operand stores them in; the result is labelled by the Frame's other axis               *)
+QOfN(v) == <<v[2], v[3]>>
+Dot(labels, leftAt(_), rightAt(_)) == FoldLeft(LAMBDA acc, l : QAdd(acc, QMul(QOfN(leftAt(l)), QOfN(rightAt(l)))), <<0, 1>>, labels)
+MatmulSFOK(s, f, res) ==
+  /\ res.index = f.columns
+  /\ \A j \in 1..Len(f.columns) : res.vals[j] = QV(Dot(s.index, LAMBDA l : Lookup1(s.index, s.vals, l), LAMBDA l : Lookup2(f, l, f.columns[j])))
+MatmulFSOK(f, s, res) ==
+  /\ res.index = f.index
+  /\ \A i \in 1..Len(f.index) : res.vals[i] = QV(Dot(s.index, LAMBDA l : Lookup1(s.index, s.vals, l), LAMBDA l : Lookup2(f, f.index[i], l)))
 ScalarOpOK(fn, a, v, res, reflected) ==
   /\ res.index = a.index /\ res.columns = a.columns
   /\ \A i \in 1..Len(res.index), j \in 1..Len(res.columns) :
